@@ -61,6 +61,12 @@ func dispatch(kind string, args []*Sexp) (out *Sexp) {
 	case "compile":
 		return runCompile(args)
 	}
+	switch kind {
+	case "callbind":
+		return runCallBind(args)
+	case "invoketwin":
+		return runInvokeTwin(args)
+	}
 	return L(A("unknown-kind"), A(kind))
 }
 
